@@ -3,6 +3,7 @@ package driver
 import (
 	"context"
 	"fmt"
+	"io"
 	"os"
 	"regexp"
 	"runtime"
@@ -559,6 +560,14 @@ func (rt *runtimeS) step(st Step) {
 		case "cread": // the client's reads fail
 			p := rt.pipeOf(conn, "s2c")
 			p.with(func() { p.rerr = errInjected; tr.emit(e) })
+		case "creadeof": // ... with io.EOF, as net.Pipe / TCP based transports report a closed connection
+			e.K = "cread"
+			p := rt.pipeOf(conn, "s2c")
+			p.with(func() { p.rerr = io.EOF; tr.emit(e) })
+		case "sreadeof":
+			e.K = "sread"
+			p := rt.pipeOf(conn, "c2s")
+			p.with(func() { p.rerr = io.EOF; tr.emit(e) })
 		case "cwrite":
 			p := rt.pipeOf(conn, "c2s")
 			p.with(func() { p.werr = errInjected; tr.emit(e) })
